@@ -184,3 +184,13 @@ pub fn fmt_flags<T: std::fmt::Display>(v: &T) -> Option<String> {
     }
     None
 }
+
+/// A library call made by a GENERATOR (to derive an input from the library's own answer, e.g. the canonical string of
+/// an accepted identifier): guarded like a case - the watchdog sees a hang inside it, a panic is caught - so that a
+/// defective library cannot stall or kill the harness outside a reported case.  `None` = the call panicked.
+pub fn gen_call<T, F: FnOnce() -> T>(f: F) -> Option<T> {
+    CALL_START.store(now_ms(), Ordering::Relaxed);
+    let r = catch_unwind(AssertUnwindSafe(f));
+    CALL_START.store(0, Ordering::Relaxed);
+    r.ok()
+}
